@@ -981,7 +981,8 @@ def cvc5_check(conds, timeout=60):
     out = "timeout"
     # second attempt: integer encoding that keeps the mod-2^k semantics (decides multiply/divide-by-constant
     # kernels that bit-blasting does not finish)
-    for extra, tl in (([], max(10, timeout // 3)), (["--solve-bv-as-int=sum"], timeout)):
+    attempts = (([], timeout),) if timeout <= 30 else ((["--solve-bv-as-int=sum"], min(90, timeout)), ([], timeout))
+    for extra, tl in attempts:
         try:
             r = subprocess.run(["cvc5", "--lang", "smt2", "--tlimit", str(tl * 1000)] + extra + [p], capture_output=True, text=True, timeout=tl + 10)
             out = (r.stdout + r.stderr).strip()
